@@ -4,6 +4,7 @@ use std::path::Path;
 use std::time::Instant;
 
 use llfree::{HUGE_FRAMES, TREE_FRAMES};
+const HUGE_ORDER_C: usize = llfree::HUGE_ORDER;
 use serde_json::{Map, Value, json};
 
 use crate::common::{ClassingSpec, Config, InitMode, PolicyKind};
@@ -347,6 +348,134 @@ pub fn run(prop: &str, tier: &str, out: Option<&Path>) -> i32 {
                 let scs = crate::scenarios::generate(thorough as usize);
                 run_seq_ilv(prop, tier, cfgs, params, scs, ilv_opts(thorough), seq_assume, out)
             }
+        }
+        "C23" => crate::dom::c23(tier, out),
+        "C16" => crate::dom::c16(tier, out),
+        "C06" => crate::dom::c06(tier, out),
+        "C07" => {
+            let mut cl = classings_std();
+            cl.push(classings_zero_slot()[0].clone());
+            let frames = if thorough {
+                frames_std()
+            } else {
+                vec![HUGE_FRAMES, TREE_FRAMES + HUGE_FRAMES + 3, 2 * TREE_FRAMES, 3 * TREE_FRAMES + 1]
+            };
+            let cfgs = configs(&frames, &cl, &BOTH);
+            let params = SeqParams {
+                prop: prop.to_string(),
+                profile: Profile::c02(),
+                depth: if thorough { 3 } else { 2 },
+                max_states: if thorough { 100_000 } else { 20_000 },
+                probes: Probes {
+                    c07: true,
+                    c07_depth2: thorough,
+                    ..Default::default()
+                },
+                max_secs: if thorough { 600.0 } else { 30.0 },
+            };
+            run_seq(prop, tier, cfgs, params, seq_assume, out)
+        }
+        "C10" => {
+            let cl = vec![
+                ClassingSpec::simple(1),
+                ClassingSpec::simple(2),
+                ClassingSpec::simple(3),
+                ClassingSpec::movable(1),
+                ClassingSpec::movable(2),
+                ClassingSpec::zeroed([1, 1, 1], 1),
+                ClassingSpec::zeroed([2, 1, 3], 1),
+            ];
+            let frames = if thorough {
+                frames_std()
+            } else {
+                vec![TREE_FRAMES, TREE_FRAMES + HUGE_FRAMES + 3, 2 * TREE_FRAMES, 3 * TREE_FRAMES + 1]
+            };
+            let cfgs = configs(&frames, &cl, &BOTH);
+            let mut profile = Profile::c15();
+            profile.part_frees = true;
+            profile.max_held = 3;
+            profile.orders = vec![0, 6, 7, HUGE_ORDER_C, llfree::TREE_ORDER];
+            let params = SeqParams {
+                prop: prop.to_string(),
+                profile,
+                depth: if thorough { 3 } else { 2 },
+                max_states: if thorough { 60_000 } else { 6_000 },
+                probes: Probes {
+                    c10: true,
+                    ..Default::default()
+                },
+                max_secs: if thorough { 600.0 } else { 30.0 },
+            };
+            let scs = crate::scenarios::generate(thorough as usize);
+            let mut opts = ilv_opts(thorough);
+            opts.c10 = true;
+            opts.bound = if thorough { 2 } else { 1 };
+            run_seq_ilv(prop, tier, cfgs, params, scs, opts, seq_assume, out)
+        }
+        "C15" => {
+            let cl = vec![
+                ClassingSpec::simple(1),
+                ClassingSpec::simple(2),
+                ClassingSpec::movable(1),
+                ClassingSpec::zeroed([1, 1, 1], 1),
+            ];
+            let frames = vec![2 * TREE_FRAMES, 2 * TREE_FRAMES + HUGE_FRAMES + 3, 3 * TREE_FRAMES];
+            let cfgs = configs(&frames, &cl, &[InitMode::FreeAll]);
+            let params = SeqParams {
+                prop: prop.to_string(),
+                profile: Profile::c15(),
+                depth: if thorough { 5 } else { 4 },
+                max_states: if thorough { 1_500_000 } else { 150_000 },
+                probes: Probes {
+                    c10: false,
+                    c15_fill: true,
+                    ..Default::default()
+                },
+                max_secs: if thorough { 900.0 } else { 40.0 },
+            };
+            run_seq(prop, tier, cfgs, params, seq_assume, out)
+        }
+        "C05" => {
+            let mut frames = vec![
+                HUGE_FRAMES,
+                TREE_FRAMES,
+                TREE_FRAMES + HUGE_FRAMES,
+                TREE_FRAMES + 2 * HUGE_FRAMES + 7,
+                2 * TREE_FRAMES + HUGE_FRAMES / 2,
+                2 * TREE_FRAMES,
+            ];
+            if thorough {
+                frames.extend([HUGE_FRAMES - 1, TREE_FRAMES - 1, 3 * TREE_FRAMES + 1, 4 * TREE_FRAMES]);
+                for k in 1..llfree::TREE_HUGE {
+                    frames.push(2 * TREE_FRAMES + k * HUGE_FRAMES);
+                }
+            }
+            frames.sort();
+            frames.dedup();
+            let cl = if thorough {
+                classings_std()
+            } else {
+                vec![ClassingSpec::simple(1), ClassingSpec::movable(1)]
+            };
+            let cfgs = configs(&frames, &cl, &BOTH);
+            let params = SeqParams {
+                prop: prop.to_string(),
+                profile: Profile::c02(),
+                depth: if thorough { 3 } else { 2 },
+                max_states: if thorough { 400_000 } else { 60_000 },
+                probes: Probes {
+                    c05: true,
+                    ..Default::default()
+                },
+                max_secs: if thorough { 600.0 } else { 25.0 },
+            };
+            let scs = crate::scenarios::generate(thorough as usize);
+            let mut opts = ilv_opts(thorough);
+            opts.crash = true;
+            opts.bound = if thorough { 2 } else { 1 };
+            let mut assume = seq_assume.clone();
+            assume.push("crash model: the persistent image is a program-order prefix of the executed atomic writes to the lower buffer (no reordering, no torn words); crashes inside construction and double crashes are out of scope".into());
+            run_seq_ilv(prop, tier, cfgs, params, scs, opts, assume, out)
         }
         "C01" | "C03" | "C21" => {
             let scs = crate::scenarios::generate(thorough as usize);
